@@ -73,7 +73,7 @@ func (e *Engine) SoloCalls() int          { return e.solo.Calls }
 func (e *Engine) HostFunc(flavour, name string) tengo.CallableFunc {
 	return func(args ...tengo.Object) (tengo.Object, error) {
 		var hb hostBehaviour
-		if e.active {
+		if e.active.Load() {
 			a := arrival{gid: curGID(), site: SiteHostCall, task: -1, name: name}
 			r := e.park(&a)
 			if r.action == actUnwind {
